@@ -768,7 +768,10 @@ func extractMuxFacts(repo, root string) error {
 			l = append(l, fmt.Sprintf("(%q, %s)", n, n))
 		}
 		return l
-	}(), ", ") + "]\nend KV.Gen.MuxFacts\n")
+	}(), ", ") + "]\n")
+	b.WriteString("/-! decision tables by symbolic execution: (scenario of predicate values, effects in order) -/\n")
+	b.WriteString(f.flowTables(conn, tr))
+	b.WriteString("end KV.Gen.MuxFacts\n")
 	return os.WriteFile(filepath.Join(root, "lean", "KafkaVerif", "Gen", "MuxFacts.lean"), []byte(b.String()), 0o644)
 }
 
